@@ -24,6 +24,7 @@ import (
 
 var transparentExternal = map[string]bool{
 	"github.com/dgraph-io/badger/v4.IteratorOptions": true,
+	"github.com/dgraph-io/badger/v4.Entry":           true, // NewEntry(key, val).WithTTL(d) -> SetEntry(e): Key/Value are read off the record
 }
 
 func isTransparentExternal(t types.Type) bool {
@@ -158,4 +159,29 @@ func addrFromCall(v ssa.Value, depth int) bool {
 		}
 	}
 	return false
+}
+
+// evalKvSub: spec builtin kvsub(id, lo, hi): the id of bytes [lo, hi) of the byte string with id `id` (uninterpreted).
+// Clients axiomatise it on their key constructors (storage: the hash part of a CACHETRANSACTIONQUEUE key).
+func (e *SpecEnv) evalKvSub(x *ECall) SV {
+	if len(x.Args) != 3 {
+		e.fail("kvsub(id, lo, hi)")
+	}
+	a, lo, hi := e.eval(x.Args[0]), e.eval(x.Args[1]), e.eval(x.Args[2])
+	e.fc.eng.declareUF(e.fc, "kvsub", []string{"Int", "Int", "Int"}, "Int")
+	return SV{t: app("kvsub", a.t, lo.t, hi.t), typ: mathInt}
+}
+
+// kvSubSliceFact: after t := s[lo:hi] on a byte slice, in functions whose specs mention kvsub: the id of the new window is
+// kvsub(id of the old window, lo, hi) -- a ground instance of "ids are functions of the content" at the slicing site.
+func (fr *Frame) kvSubSliceFact(st *State, g string, s SV, et types.Type, lo, hi string) {
+	fc := fr.fc
+	if _, used := fc.ufs["kvsub"]; !used || !isByteT(et) {
+		return
+	}
+	fc.eng.declareUF(fc, "kvkey", []string{"(Array Int Int)", "Int", "Int"}, "Int")
+	fc.eng.declareUF(fc, "kvval", []string{"(Array Int Int)", "Int", "Int"}, "Int")
+	k, srt := fc.bKey(et)
+	blk := app("select", fc.comp(st, k, srt), sarr(s.t))
+	fc.assume(g, eq(app("kvval", blk, plus(soff(s.t), lo), minus(hi, lo)), app("kvsub", app("kvkey", blk, soff(s.t), slen(s.t)), lo, hi)))
 }
